@@ -1,3 +1,4 @@
+mod conc;
 mod contains;
 mod gen;
 mod hist;
@@ -312,7 +313,7 @@ fn gen_lang(a: &HashMap<String, String>) {
     println!("{}", serde_json::to_string(&json!({"events": n, "stats": stats})).unwrap());
 }
 
-fn collect_hints(c: &CtxSpec, out: &mut Vec<Val>) {
+pub fn collect_hints(c: &CtxSpec, out: &mut Vec<Val>) {
     fn rec(v: &Val, out: &mut Vec<Val>) {
         match v {
             Val::Nil { .. } => {}
@@ -1089,6 +1090,67 @@ fn gen_total(a: &HashMap<String, String>) {
     println!("{}", serde_json::to_string(&json!({"events": inputs.len(), "stats": stats})).unwrap());
 }
 
+/// impl -> spec for C18.  `--child` mode: one fresh process that races the first use of the lazily
+/// initialised state from all threads at once and prints its events.
+fn gen_conc(a: &HashMap<String, String>) {
+    let seed: u64 = a.get("seed").and_then(|s| s.parse().ok()).unwrap_or(1);
+    let n: usize = a.get("n").and_then(|s| s.parse().ok()).unwrap_or(4);
+    let out = a.get("out").cloned().unwrap_or_else(|| ".".into());
+    let rounds: usize = a.get("rounds").and_then(|s| s.parse().ok()).unwrap_or(20);
+    quiet_panics();
+    let simd_expected = std::env::var("WIREFILTER_USE_AVX2").map(|v| !["0", "no", "false"].contains(&v.as_str())).unwrap_or(true)
+        && std::is_x86_feature_detected!("avx2");
+    let p = conc::plan(seed, 12, 5);
+    if a.contains_key("child") {
+        let mut evs = Vec::new();
+        let mut id = 0u64;
+        let threads: usize = a.get("threads").and_then(|s| s.parse().ok()).unwrap_or(16);
+        conc::run(&p, threads, 2, simd_expected, &mut id, &mut evs);
+        for e in evs {
+            println!("{}", serde_json::to_string(&e).unwrap());
+        }
+        return;
+    }
+    write_ndjson(&format!("{out}/schemes.ndjson"), &p.specs);
+    write_ndjson(&format!("{out}/ctxs.ndjson"), &p.ctxs);
+    let fl: Vec<Value> = p.filters.iter().map(|(s, ts, src)| json!({"sch": s, "ts": ts, "src": src})).collect();
+    write_ndjson(&format!("{out}/filters.ndjson"), &fl);
+    let mut evs = Vec::new();
+    let mut id = 0u64;
+    // n = number of (T in 2,4,16,64) sweeps in this process
+    for k in 0..n {
+        for t in [2usize, 4, 16, 64] {
+            conc::run(&p, t, if t == 64 { rounds / 4 + 1 } else { rounds }, simd_expected, &mut id, &mut evs);
+        }
+        let _ = k;
+    }
+    // fresh processes racing the first use
+    let exe = std::env::current_exe().unwrap();
+    let nproc: usize = a.get("procs").and_then(|s| s.parse().ok()).unwrap_or(10);
+    for k in 0..nproc {
+        let o = std::process::Command::new(&exe)
+            .args(["gen-conc", "--child", "--seed", &seed.to_string(), "--threads", if k % 2 == 0 { "16" } else { "64" }])
+            .output()
+            .unwrap();
+        if !o.status.success() {
+            evs.push(json!({"ev": "conc", "id": id, "th": 0, "threads": 0, "rounds": 0, "f": 1, "c": 1,
+                            "results": [true, false, true], "simd": false, "simd_expected": simd_expected, "child_failed": true}));
+            id += 1;
+            continue;
+        }
+        for line in String::from_utf8_lossy(&o.stdout).lines() {
+            if let Ok(mut e) = serde_json::from_str::<Value>(line) {
+                e["id"] = json!(id);
+                e["proc"] = json!(k + 1);
+                id += 1;
+                evs.push(e);
+            }
+        }
+    }
+    write_ndjson(&format!("{out}/trace.ndjson"), &evs);
+    println!("{}", serde_json::to_string(&json!({"events": evs.len(), "filters": p.filters.len(), "simd": simd_expected})).unwrap());
+}
+
 fn main() {
     let args: Vec<String> = std::env::args().collect();
     if args.len() < 2 {
@@ -1162,6 +1224,10 @@ fn main() {
         }
         "gen-total" => {
             gen_total(&a);
+            0
+        }
+        "gen-conc" => {
+            gen_conc(&a);
             0
         }
         "gen-types" => {
